@@ -328,7 +328,26 @@ func (e *Engine) checkRequests(ep int) {
 		if d.Response == "none" {
 			want = 0
 		}
-		if len(resp) != want {
+		// a publish the connection refused (injected fault) did not answer
+		// the request: trying again afterwards is not a second response,
+		// whereas any attempt after one that went out is
+		countOK := len(resp) == want
+		if want == 1 && len(resp) > 1 {
+			countOK = true
+			for _, p := range resp[:len(resp)-1] {
+				if p.Err == nil {
+					countOK = false
+				}
+			}
+		}
+		// (the response compared below is the one that went out, if any)
+		for i, p := range resp {
+			if p.Err == nil {
+				resp[0], resp[i] = resp[i], resp[0]
+				break
+			}
+		}
+		if !countOK {
 			cls := "no-response"
 			if len(resp) > want {
 				cls = "multiple-responses"
